@@ -190,7 +190,7 @@ Definition transfer_errors (t : node) (s d : list str) (overwrite : bool) : list
   ++ (match ds with IsDir => [FileExpected] | _ => [] end)
   ++ (match d with
       | [] => []
-      | _ => if exists_st ds then [] else file_parent_errors (status_of t (parent d))
+      | _ => if exists_st ds then [] else parent_errors (status_of t (parent d))
       end).
 
 Definition ref_move (t : node) (s d : list str) (overwrite pt : bool) : rstep :=
